@@ -43,16 +43,18 @@ Theorem C02_dec_enc : forall t pre post fuel,
   dec_tree fuel (pre ++ enc_tree t ++ post) (lenN pre) = Some (t, lenN pre + lenN (enc_tree t)).
 Proof. exact dec_enc. Qed.
 
-(** FINDING (with C03_refuted_w32): at W = 32, release build, an output reported complete that is
-    not a MessagePack value at all (a map header announcing 2^31 pairs and nothing else). *)
-Theorem C02_refuted_w32 :
+(** Finding F8 (repaired, see C03_w32_former_witness_repaired): at W = 32 a map header announcing 2^31
+    pairs and nothing else used to be reported complete.  On the repaired code the writer is NOT in End
+    after the former witness and finalisation refuses, in both overflow modes. *)
+Theorem C02_w32_former_witness_repaired :
   exists ops,
     Forall (len_below (2 ^ 32)) ops /\
-    (let c := fst (run 32 false ops) in
-     wstate c = End /\ finalize c = (WR_Ok, out c) /\ dec_tree (S (length (out c))) (out c) 0 = None).
+    (forall trap, let c := fst (run 32 trap ops) in
+       wstate c <> End /\ fst (finalize c) = WR_ValueNotFinished).
 Proof.
   exists [OStartObj (2 ^ 31); OFinObj].
-  split; [repeat constructor|vm_compute; repeat split; reflexivity].
+  split; [repeat constructor|].
+  intros [|]; vm_compute; (split; [discriminate|reflexivity]).
 Qed.
 
 (** * Non-vacuity *)
